@@ -21,6 +21,7 @@ Fixpoint good_ops (o : oracle) (h w : nat) (ops : list op) : Prop :=
   | [] => True
   | Draw g :: ops' => good_surface o h w g /\ good_ops o h w ops'
   | Resize h' w' g :: ops' => gdims g h' w' /\ good_ops o h' w' ops'
+  | FailFrame _ :: _ => False      (* every frame is rendered: the terminal accepts every command *)
   | _ :: ops' => good_ops o h w ops'
   end.
 
@@ -303,6 +304,7 @@ Definition good_op (o : oracle) (h w : nat) (x : op) : Prop :=
   match x with
   | Draw g => good_surface o h w g
   | Resize h' w' g => gdims g h' w'
+  | FailFrame _ => False
   | _ => True
   end.
 
@@ -312,7 +314,7 @@ Lemma hinv_step : forall o h w st scr E x, oracle_ok o ->
        (snd (rstep o st x)) (screen_step o scr x (fst (rstep o st x))) E.
 Proof.
   intros o h w st scr E x Hok HI Hgood. pose proof Hok as (Hsp & Hfs & Hlaw).
-  destruct x as [g| | | | |h' w' g]; unfold screen_step; cbn [rstep fst snd step_size].
+  destruct x as [g| | | | |h' w' g|k]; unfold screen_step; cbn [rstep fst snd step_size]; [| | | | | |contradiction].
   - apply hinv_draw; auto.
   - apply hinv_frame; auto.
   - apply hinv_skip; auto.
@@ -342,7 +344,7 @@ Qed.
 Lemma good_ops_head : forall o h w x ops,
   good_ops o h w (x :: ops) ->
   good_op o h w x /\ good_ops o (fst (step_size h w x)) (snd (step_size h w x)) ops.
-Proof. intros o h w [g| | | | |h' w' g] ops H; simpl in *; tauto. Qed.
+Proof. intros o h w [g| | | | |h' w' g|k] ops H; simpl in *; tauto. Qed.
 
 Lemma run_inv : forall o ops h w st scr E, oracle_ok o ->
   HInv o h w st scr E -> good_ops o h w ops ->
@@ -382,7 +384,7 @@ Proof.
   pose proof (IH _ _ _ _ Hok HI' Hgood') as Hrest.
   cbn [rrun]. rewrite (surjective_pairing (rstep o st x)). cbn [spec_run].
   rewrite Herr. cbn [negb andb].
-  destruct x as [g| | | | |h' w' g].
+  destruct x as [g| | | | |h' w' g|k]; [| | | | | |contradiction].
   - cbn [rstep fst snd step_size] in *. destruct (hinv_draw o h w st scr [] g HI Hx) as [_ Hf].
     rewrite Hf in Hrest. exact Hrest.
   - cbn [rstep step_size fst snd] in *. unfold screen_step in *.
